@@ -246,7 +246,7 @@ class BG:
             return t[slice(a, b)]
         if left:
             return sl(d, n, None), [self.under(sl(d, None, n), c)]
-        return sl(d, None, L - n), [self.over(c, sl(d, (-n or L), None))]
+        return sl(d, None, (-n or L)), [self.over(c, sl(d, (-n or L), None))]
 
     def curry(self, depth, curry_depth):
         gi, rng = self.gi, self.rng
@@ -634,24 +634,6 @@ def oracle_cfg(gi, p, sentences):
     return None
 
 
-# ====================================================================== contract of Curry
-def out_of_range_right_curry(gi, boxes):
-    """a right Curry box (at any depth) whose n_wires is outside the documented
-    range 0 <= n_wires <= len(diagram.dom): Curry.__init__ then builds a box whose
-    domain dom[:len(dom) - n_wires] and curried wires dom[-n_wires or len(dom):]
-    overlap or leave a gap; such requests are compared with the model but not
-    judged by the image oracle (theorem curry_overlong_refuted)"""
-    for b in boxes:
-        if b[0] != gi.XCURRY:
-            continue
-        if out_of_range_right_curry(gi, b[3]):
-            return True
-        d, n, left = b[1], b[5], b[6]
-        if not left and not 0 <= n <= len(d):
-            return True
-    return False
-
-
 # ====================================================================== the check
 def run(tier, seed):
     import grammar_impl as gi
@@ -736,8 +718,6 @@ def run(tier, seed):
             tag, D = gi.guarded(gi.bdiagram, p[1], p[2], p[3], p[4])
             if tag != 0:
                 rep.count("b2r:malformed")
-            elif out_of_range_right_curry(gi, p[3]):
-                rep.count("b2r:curry-out-of-contract")
             else:
                 rep.count("b2r:well-formed")
                 if a[0] == 0:
@@ -797,8 +777,8 @@ def run(tier, seed):
             "set membership of sentences (remove_duplicates) is modelled by ==; grammars whose Word "
             "and Box productions are == but print differently are not generated",
             "atoms of biclosed types have names of <= 6 latin-1 characters (wire format)",
-            "right Curry boxes with n_wires outside 0..len(diagram.dom) (at any depth) are out of "
-            "contract: compared with the model, not judged by the image oracle",
-            "no known finding is excused: F16 (20fba5f) and F21 (fbf277b) are fixed upstream and "
+            "every Curry box (either side, any n_wires incl. 0, over-long, negative) is judged by the "
+            "image oracle",
+            "no known finding is excused: F16 (20fba5f) and F21 (d9e48bc) are fixed upstream and "
             "their minimal inputs are ordinary corpus cases"],
         checker_cmd="make -C coq Props/C18.vo  (coqc 8.16.1, Print Assumptions parsed)")
